@@ -73,8 +73,13 @@ func (p *ECPoint) UnmarshalJSON(b []byte) error {
 	if err := json.Unmarshal(b, &aux); err != nil {
 		return err
 	}
-	p.X = aux.X.Int
-	p.Y = aux.Y.Int
+	// Y is omitted by MarshalJSON when it is nil (x25519); either member may be absent
+	if aux.X != nil {
+		p.X = aux.X.Int
+	}
+	if aux.Y != nil {
+		p.Y = aux.Y.Int
+	}
 	return nil
 }
 
